@@ -181,6 +181,9 @@ type World struct {
 // stepCtx carries facts about the op being executed to the oracles.
 type stepCtx struct {
 	op           Op
+	aliasAt      int // allocation slot an aliasing resource was created in by this op (-1: none), with the offset/size asked for
+	aliasOff     int
+	aliasSize    int
 	neverAlloc   bool
 	dedSlots     []int // slots whose request demanded dedicated memory (and succeeded)
 	dedSize      int
@@ -285,7 +288,7 @@ func panicSite() string {
 
 // Step executes one op under recover() with a watchdog.
 func (w *World) Step(op Op) StepResult {
-	w.cur = stepCtx{op: op, defragBegin: -1, defragFin: -1}
+	w.cur = stepCtx{op: op, defragBegin: -1, defragFin: -1, aliasAt: -1}
 	if w.poisoned {
 		return StepResult{Kind: "skip"}
 	}
@@ -660,6 +663,58 @@ func (w *World) exec(op Op) StepResult {
 			rq := w.res[r].req
 			wantDed := A(3)&fDedicated != 0 || A(2) == uLazy || (rq.RequiresDedicated && w.cfg.Dev.API >= 11)
 			w.noteAlloc(a, rq.Size, rq.Alignment, rq.TypeBits, uint32(A(6)), A(7), A(3), kind, wantDed, -1)
+		}
+		return result(res, err)
+	case "xbuf", "ximg":
+		// aliasing resources: the library creates the resource and binds it inside the allocation
+		r, a, off := A(0), A(1), A(2)
+		if r < 0 || r >= maxRes || w.res[r].live || !w.slotOK(a) || !w.sinfo[a].live || w.inPendingMove(a) {
+			return skip()
+		}
+		al := &w.slots[a]
+		if m := w.dev.MemByID(simvk.MemID(al.Memory())); m != nil && m.DedicatedRes != 0 {
+			// memory allocated for one specific resource (VkMemoryDedicatedAllocateInfo): aliasing it is the
+			// caller's mistake, outside the API domain
+			return skip()
+		}
+		if op.Name == "ximg" && off >= 0 && off+A(3) > al.Size() {
+			// the library cannot know an image's size before the device reports it and, like VMA, leaves it
+			// to the caller that an aliasing image fits its allocation (only the buffer variant checks)
+			return skip()
+		}
+		req := simvk.ResReq{Size: A(3), Alignment: 1, TypeBits: 1 << uint(al.MemoryTypeIndex()), IgnoreGranularity: true}
+		w.dev.SetPendingReq(&req)
+		defer w.dev.SetPendingReq(nil)
+		var res common.VkResult
+		var err error
+		if op.Name == "xbuf" {
+			var buf core1_0.Buffer
+			if off < -1000000 {
+				buf, res, err = al.CreateAliasingBuffer(core1_0.BufferCreateInfo{Size: A(3)})
+			} else {
+				buf, res, err = al.CreateAliasingBufferWithOffset(off, core1_0.BufferCreateInfo{Size: A(3)})
+			}
+			if err == nil {
+				w.res[r] = resInfo{live: true, id: simvk.BufferID(buf), kind: simvk.KindBuffer, buf: buf, req: req, owner: -1, bound: true, at: a}
+			}
+		} else {
+			tiling, rk := core1_0.ImageTilingOptimal, simvk.KindImageOptimal
+			if A(4) != 0 {
+				tiling, rk = core1_0.ImageTilingLinear, simvk.KindImageLinear
+			}
+			info := core1_0.ImageCreateInfo{Extent: core1_0.Extent3D{Width: A(3), Height: 1, Depth: 1}, MipLevels: 1, ArrayLayers: 1, Tiling: tiling}
+			var img core1_0.Image
+			if off < -1000000 {
+				img, res, err = al.CreateAliasingImage(info)
+			} else {
+				img, res, err = al.CreateAliasingImageWithOffset(off, info)
+			}
+			if err == nil {
+				w.res[r] = resInfo{live: true, id: simvk.ImageID(img), image: true, kind: rk, img: img, req: req, owner: -1, bound: true, at: a}
+			}
+		}
+		if err == nil {
+			w.cur.aliasAt, w.cur.aliasOff, w.cur.aliasSize = a, off, A(3)
 		}
 		return result(res, err)
 	case "bbuf", "bimg":
